@@ -17,12 +17,15 @@ PRED_PROP = {
     "C13.LockCount": "C13", "C13.DirExactWhenQuiet": "C13", "C13.NoLeak": "C13",
     "C11.GraphWellFormed": "C11", "C11.ReferencedMirrors": "C11", "C11.RejectIsNoop": "C11", "C11.Applied": "C11",
     "C09.FlagsMatchJobs": "C09", "C09.Stuck": "C09",
+    "C12.TagsKept": "C12", "C12.StreamsKept": "C12", "C12.Converges": "C12", "C12.ConvergesCorrect": "C12",
     "C16.ConvFresh": "C16", "C16.ConvFreshAtRest": "C16", "C16.ConvEventually": "C16", "C16.DetachStops": "C16",
 }
 
 
 def mc_config(name, consts, invariants, spec="MCSpec", props=None):
     lines = ["SPECIFICATION " + spec, "CONSTANTS", "  Caps <- MCCaps", "  Conns <- MCConns", "  Pieces <- MCPieces", "  Port <- MCPort"]
+    consts = dict(consts)
+    consts.setdefault("Crashes", "FALSE")
     for k, v in consts.items():
         lines.append("  %s = %s" % (k, v))
     if invariants:
@@ -89,6 +92,9 @@ def to_schedule(sid, hist, convs=(), settle=True):
         if e["a"] == "SetConverters":
             st["name"] = e["name"]
             st["convs"] = list(e.get("convs", []))
+        if e["a"] == "Crash":
+            st["what"] = e.get("what", "none")
+            st["cut"] = e.get("cut", 0)
         if e["a"] == "ConvReset":
             st["convs"] = list(e["convs"])
         if e["a"] == "ViewConvert":
@@ -177,6 +183,8 @@ def validate(ctx, rows, convs=()):
 def step_sig(rows_by, f):
     """narrow signature of a failing predicate: predicate + the action at which it first became false in that trace"""
     if f.get("info"):
+        if f["what"] == "C16.ConvFresh":
+            return "%s@%s:%s" % (f["what"], f["a"], f["info"])
         return "%s:%s" % (f["what"], f["info"])
     return "%s@%s" % (f["what"], f["a"])
 
@@ -185,7 +193,7 @@ def first_fails(fails):
     """keep, per (trace, predicate), only the first failing step (later rows repeat the same bad state)"""
     best = {}
     for f in fails:
-        k = (f["sid"], f["what"], f.get("info", ""))
+        k = (f["sid"], f["what"])
         if k not in best or f["n"] < best[k]["n"]:
             best[k] = f
     return list(best.values())
@@ -200,9 +208,10 @@ GEN = {
     "C10": ({"TagNames": '{"tag/a"}', "ConvNames": "{}", "MaxCalls": 7, "MaxViews": 3, "Menu": '"files"', "Invalid": "FALSE"}, 40),
     "C11": ({"TagNames": '{"tag/a", "tag/b", "mark/m"}', "ConvNames": "{}", "MaxCalls": 12, "MaxViews": 0, "Menu": '"tags"', "Invalid": "TRUE"}, 34),
     "C13": ({"TagNames": '{"tag/a"}', "ConvNames": "{}", "MaxCalls": 8, "MaxViews": 3, "Menu": '"files"', "Invalid": "FALSE"}, 40),
-    "C16": ({"TagNames": '{"tag/a", "tag/b", "mark/m"}', "ConvNames": '{"cv"}', "MaxCalls": 9, "MaxViews": 1, "Menu": '"conv"', "Invalid": "FALSE"}, 48),
+    "C12": ({"TagNames": '{"tag/a", "tag/b", "mark/m"}', "ConvNames": '{"cv"}', "MaxCalls": 10, "MaxViews": 1, "Menu": '"conv"', "Invalid": "FALSE", "Crashes": "TRUE"}, 46),
+    "C16": ({"TagNames": '{"tag/a", "tag/b", "mark/m"}', "ConvNames": '{"cv"}', "MaxCalls": 10, "MaxViews": 1, "Menu": '"conv"', "Invalid": "FALSE", "Crashes": "TRUE"}, 48),
 }
-CONVS = {"C16": ["cv"]}
+CONVS = {"C16": ["cv"], "C12": ["cv"]}
 
 MC = {
     # pid: list of (cfg name, constants, invariants, timeout)
@@ -216,6 +225,8 @@ MC = {
              ["GraphWellFormed"])],
     "C13": [("files", {"TagNames": '{"tag/a"}', "ConvNames": "{}", "MaxCalls": 3, "MaxViews": 2, "Menu": '"files"', "Invalid": "FALSE"},
              ["NoUseAfterFree", "Balanced", "DirExactWhenQuiet", "NoLeak"])],
+    "C12": [("files", {"TagNames": '{"tag/a"}', "ConvNames": "{}", "MaxCalls": 3, "MaxViews": 1, "Menu": '"files"', "Invalid": "FALSE"},
+             ["ViewComplete", "OneIdPerConn", "NoUseAfterFree", "NeverStuck"])],
     "C16": [("conv", {"TagNames": '{"tag/a"}', "ConvNames": '{"cv"}', "MaxCalls": 3, "MaxViews": 0, "Menu": '"conv"', "Invalid": "FALSE"},
              ["ConvFresh", "ConvEventually", "DetachStops", "NeverStuck", "FlagsMatchJobs"])],
 }
@@ -300,7 +311,8 @@ def evaluate(ctx, pid, scheds, rows, crashes, states, trans, mc_notes, convs=())
             first_strict[f["sid"]] = f
     for f in fails:
         if f["what"] == "C16.ConvFreshAtRest":
-            f["info"] = "cause=" + first_strict.get(f["sid"], f)["a"]
+            fs = first_strict.get(f["sid"], f)
+            f["info"] = "cause=" + fs["a"] + ("/" + fs["info"] if fs is not f and fs.get("info") else "")
     mine = [f for f in first_fails(fails) if PRED_PROP.get(f["what"]) == pid]
     others = sorted({f["what"] for f in fails if PRED_PROP.get(f["what"]) != pid})
     infra_fail = [f for f in fails if f["what"] in ("obs-error", "dir-listing-differs")]
